@@ -460,6 +460,9 @@ func runR155(c *core.Ctx) {
 						if l.Blocks[s] {
 							continue
 						}
+						if _, isPanic := s.Instrs[len(s.Instrs)-1].(*ssa.Panic); isPanic {
+							continue // "blocking select matched no case": unreachable by construction
+						}
 						// the exit edge must be taken only when every channel is nil (closed and cleared)
 						conds := append(ssax.DomConds(b), edgeCondOf(b, s)...)
 						for _, ch := range chans {
